@@ -8,7 +8,12 @@ wrapped RECORD-ONLY (nothing they return is altered) and `np.random.default_rng`
 runs (to know which generator is seeded with what).  Every case with `ustream = 0` is run a third time on a sampler
 that carries no instrumentation at all; it must deliver the same samples.  `ustream = k > 0` is the adversarial draw
 source for the truncated-Poisson weights: entries of the uniform vector `rng.random(E)` are replaced by extreme values
-`Generator.random` can return (0, 2^-53, 1 - 2^-53, ...) - everything downstream is the real code."""
+`Generator.random` can return (0, 2^-53, 1 - 2^-53, ...) - everything downstream is the real code.
+
+Sessions (`mode = session`): ONE sampler object, 2-5 `sample(...)` calls of all conditioning kinds in every order, their
+generators consumed one after the other or interleaved; the recording is routed to one Trace per call (`Router`), every
+call is judged with the conditioning of THAT call and replayed on the model, and the whole session is replayed on the
+model's sampler-state record (`new`, `callhyg` / `callseqs` / `callmodel`: `C16.callStep`)."""
 import contextlib
 import math
 import signal
@@ -27,12 +32,19 @@ RULE = ("three conditioning modes of HyMMSBMSampler.sample: (A) initial hypergra
         "truncated-Poisson sampler is the real one on real uniforms (ustream=0) or on uniform vectors in which entries are "
         "replaced by extreme legal values 0, 2^-53, 1-2^-53, ... (ustream>0); the D44 witnesses (seeds whose uniforms round p "
         "to P(X=0) / to 1) are replayed every run; plus direct calls of _pairwise_reshuffle, _deg_seq_to_dict, _extract_hye "
-        "(all four flag combinations) and sample_truncated_poisson (means 1e-300 .. 1e5, scalar and array). A case is distinct by its "
+        "(all four flag combinations) and sample_truncated_poisson (means 1e-300 .. 1e5, scalar and array); (S) sessions: ONE sampler "
+        "object used for 2-5 sample(...) calls - initial hypergraphs each with its own label set (strings, sparse integers, the ids "
+        "themselves, nearly the ids), degree/size sequences that match or not, sampling from the model, in every order, a call "
+        "repeated later (with the same argument objects or equal fresh ones) - whose generators are created lazily or all up front "
+        "and consumed 1-3 samples each, one after the other or interleaved; each session runs on two recorded samplers and (real "
+        "uniforms) on an uninstrumented one; every call is judged against the conditioning of that call, its report "
+        "matching_sequences is read right after its first sample. A case is distinct by its "
         "canonical input (mode, parameters, sequences / hyperedges, steps, seed); non-trivial when at least one accepted "
         "proposal changed the configuration (direct calls: when the call returned)")
 ASSUMPTIONS = [
     "initial hypergraphs have hyperedges of size >= 2 and size sequences have keys >= 2 (a size-1 entry is extracted and dropped by the sampler; the property speaks of sizes >= 2)",
-    "one sample(...) call per sampler object (matching_sequences is never reset by the sampler)",
+    "matching_sequences is the report of the most recently STARTED sequence-conditioned call (an attribute of the sampler object): it is read right after the first sample of a call; sample(initial_hyg=...) makes no report",
+    "in a session every call's deg_seq has one entry per row of u and every initial hypergraph at most as many nodes as u has rows (the sampler's internal ids are row indices)",
     "labels are mapped order-isomorphically to naturals before they reach the model",
     "an exception of the sampler is 'no output' (the model must answer none on the same draws); it is reported as a broken correspondence when the model returns",
     "the branch force_deg_seq and not force_dim_seq of _match_sequences (only one sequence given) is outside the property's quantifier; it references self.model (AttributeError) - noted, not claimed",
@@ -80,6 +92,33 @@ class Trace:
         self.weights = []      # per sample_truncated_poisson call: the returned values as naturals (0 = not a positive integer)
         self.tp_calls = []     # per sample_truncated_poisson call: dict(mean, raw, quant, unif)
         self.step_marks = []   # number of steps done at each yield
+        self.sink = self.log   # where the generator proxies write
+
+
+class LogRouter:
+    def __init__(self, router):
+        self.router = router
+
+    def append(self, entry):
+        object.__getattribute__(self.router, "_cur").log.append(entry)
+
+
+class Router:
+    """stands for "the Trace of the call whose generator is running now": several `sample(...)` calls on ONE sampler
+    share the instrumented sampler object; every attribute access goes to the trace selected with `use`"""
+
+    def __init__(self, first):
+        object.__setattr__(self, "_cur", first)
+        object.__setattr__(self, "sink", LogRouter(self))
+
+    def use(self, trace):
+        object.__setattr__(self, "_cur", trace)
+
+    def __getattr__(self, name):
+        return getattr(object.__getattribute__(self, "_cur"), name)
+
+    def __setattr__(self, name, value):
+        setattr(object.__getattribute__(self, "_cur"), name, value)
 
 
 def sorted_cfg(cfg):
@@ -96,7 +135,7 @@ def patched_default_rng(trace):
         trace.rng_seeds.append(seed_arg)
         g = real(*a, **k)
         if seed_arg is None:
-            return hgxv.RngProxy(g, trace.log, "unseeded")
+            return hgxv.RngProxy(g, trace.sink, "unseeded")
         return g
     np.random.default_rng = wrapper
     try:
@@ -148,9 +187,9 @@ def build_sampler(trace, u, w, D, exact, burn, thin, seed, ustream=0):
     if isinstance(inner, hgxv.RngProxy):          # built by default_rng(None): already a proxy tagged "unseeded"
         pass
     else:
-        s._model._rng = hgxv.RngProxy(inner, trace.log, "inner")
+        s._model._rng = hgxv.RngProxy(inner, trace.sink, "inner")
     if not isinstance(s._rng, hgxv.RngProxy):
-        s._rng = AdvRng(s._rng, trace.log, own_src, ustream)
+        s._rng = AdvRng(s._rng, trace.sink, own_src, ustream)
 
     real_step = s._mcmc_step
 
@@ -554,8 +593,8 @@ def oracle_outputs(ctx, case, res, trace, code_of, tag=""):
         for e in edges:
             if len(e) < 2:
                 ctx.violation(where, f"sample {k} has the hyperedge {e} of size < 2")
-            if mode == "model" and len(e) > case["D"]:
-                ctx.violation(where, f"sample {k} has the hyperedge {e} larger than max_hye_size={case['D']}")
+            if mode == "model" and len(e) > (case["D"] or N):       # max_hye_size=None: the number of nodes
+                ctx.violation(where, f"sample {k} has the hyperedge {e} larger than max_hye_size={case['D'] or N}")
             if not set(e) <= allowed:
                 ctx.violation(where, f"sample {k}: hyperedge {e} has a node outside the {'initial hypergraph' if mode == 'hyg' else 'model'}")
         if cond_size is not None and case.get("equal_totals", True):
@@ -643,6 +682,15 @@ def oracle_matching(ctx, case, trace):
         want = {i: int(d) for i, d in enumerate(m["deg_seq"]) if int(d) > 0}
         if count_deg(cfg) != want:
             ctx.violation(case, f"_match_sequences reports matching sequences but node usage {count_deg(cfg)} != degree sequence {want}")
+    if m["flag"] is not True and case["mode"] == "seqs" and case.get("equal_totals", True) and m["fd"] and m["fm"]:
+        # "realisable by the sampler's greedy construction or not - it says which through its matching_sequences flag":
+        # a construction that had to leave the degree sequence used a node of residual degree 0 once more, so a
+        # configuration that realises both sequences exactly was built without leaving them - the report for THIS
+        # call must be True (a False / None here is the report of an earlier call on the same sampler, or none at all)
+        want = {i: int(d) for i, d in enumerate(m["deg_seq"]) if int(d) > 0}
+        if count_deg(cfg) == want and count_sizes(cfg) == dim:
+            ctx.violation(case, f"the sampler reports matching_sequences={m['flag']} for a degree and a size sequence that its construction "
+                          f"realised exactly (initial configuration {cfg}): the report does not describe the call at hand")
 
 
 def legit_exception(case, t):
@@ -696,11 +744,6 @@ def check_case(ctx, drv, case):
         ctx.violation(case, "the sampler did not deliver its samples within the time limit (non-termination guard)")
         ctx.extra["timed_out"] = True
         return
-    if r1["exc"]:
-        ctx.count("runs_raising")
-        if not legit_exception(case, t1):
-            ctx.disagree(case, f"the sampler raised {r1['exc']} although every draw it needs exists (the model returns for every valid draw list)")
-
     # -- seed: two samplers, same parameters and seed -> same sequence
     if (r1["out"], r1["exc"] is None) != (r2["out"], r2["exc"] is None):
         src = {}
@@ -713,6 +756,19 @@ def check_case(ctx, drv, case):
         ctx.violation({**case, "run": "uninstrumented"},
                       "a sampler without any instrumentation and the recorded sampler, built with the same parameters and seed, "
                       f"produced different sequences of samples: {str(r3['out'])[:300]} ({r3['exc']}) vs {str(r1['out'])[:300]} ({r1['exc']})")
+    judge(ctx, drv, case, r1, t1, r3)
+
+
+def judge(ctx, drv, case, r1, t1, r3=None):
+    """ONE `sample(...)` call (`case` = its arguments + the sampler's parameters, `r1` = what it delivered, `t1` = the
+    recording of this call only, `r3` = the same call on a sampler without instrumentation): the property's clauses on
+    the outputs and the replay of the recorded draws on the model.  Returns the `call...` line of this call for the
+    replay of a whole session on the model's sampler-state record (None when the run cannot be encoded)."""
+    mode = case["mode"]
+    if r1["exc"]:
+        ctx.count("runs_raising")
+        if not legit_exception(case, t1):
+            ctx.disagree(case, f"the sampler raised {r1['exc']} although every draw it needs exists (the model returns for every valid draw list)")
     if r1["flag"] is not None:
         ctx.count("flag_true" if r1["flag"] else "flag_false")
 
@@ -729,9 +785,10 @@ def check_case(ctx, drv, case):
     except Exception as e:  # noqa: BLE001 - the outputs do not even have the shape of a hypergraph
         ctx.violation(case, f"the yielded objects cannot be inspected as weighted hypergraphs: {type(e).__name__}: {e}")
     if drv is None:
-        return
+        return None
 
     # -- model replay
+    call = None
     try:
         n_y = len(t1.routine["yields"]) if t1.routine else 0
         burn, blocks = split_steps(t1, case["burn"], case["thin"], n_y)
@@ -754,8 +811,15 @@ def check_case(ctx, drv, case):
                          f"{enc_blocks(blocks[:n_out])} {hgxv.enc_lists(weights[:n_out])}")
             want = [sorted(((tuple(sorted(code[x] for x in e)), wt) for e, wt in o), key=repr) for o in r1["out"]]
             expect.append(("outs", want, r1["exc"] if n_out < case.get("nsamples", NSAMPLES) else None))
+            call = {"line": "call" + lines[-1][4:], "report": "-", "outs": want, "complete": r1["exc"] is None, "sets_flag": False}
         elif t1.match is not None:
             m = t1.match
+            if mode == "model" and any(float(x) < 0 for x in m["deg_seq"]):
+                # the inner model drew a negative degree (its Gaussian approximation takes the square root of an expected
+                # degree that is a rounding-negative zero: nan -> INT_MIN): such a node is in no bucket the construction
+                # looks at - no clause of the property is concerned, and the model's degrees are naturals: no replay
+                ctx.count("inner_model_negative_degree")
+                return None
             deg = ints_of(m["deg_seq"])
             dim = [[int(k), int(v)] for k, v in m["dim_seq"]]
             picks = enc_picks(t1.extracts)
@@ -772,16 +836,26 @@ def check_case(ctx, drv, case):
                 expect.append(("flag_outs", bool(r1["flag"]), r1["out"], r1["exc"] if n_out < case.get("nsamples", NSAMPLES) else None))
             else:
                 expect.append(("none",))
+            tail = f"{hgxv.enc_lists(picks)} {enc_steps(burn)} {enc_blocks(blocks[:n_out])} {hgxv.enc_lists(weights[:n_out])}"
+            if mode == "seqs" and m["fd"] and m["fm"] and not fixed:
+                line = f"callseqs {hgxv.enc_list(deg)} {hgxv.enc_lists(dim)} {tail}"
+            elif mode == "model" and not m["fd"] and not m["fm"]:
+                line = f"callmodel {hgxv.enc_list(deg)} {hgxv.enc_lists(dim)} {hgxv.enc_lists(fixed)} {tail}"
+            else:
+                raise BadTrace(f"sample() in mode {mode} called _match_sequences with force_deg_seq={m['fd']}, force_dim_seq={m['fm']} "
+                               f"and {len(fixed)} fixed hyperedges")
+            call = {"line": line, "report": str(int(bool(r1["flag"]))), "outs": r1["out"],
+                    "complete": r1["exc"] is None and "result" in m, "sets_flag": True}
     except BadTrace as e:
         ctx.disagree(case, f"recorded run does not have the shape the model expects: {e}")
-        return
+        return None
     except Exception as e:  # noqa: BLE001 - e.g. an output node that is no label of the initial hypergraph
         ctx.disagree(case, f"recorded run cannot be encoded for the model: {type(e).__name__}: {e}")
-        return
+        return None
     if not lines:
         if r1["exc"] is None:
             ctx.disagree(case, "the sampler returned samples without running _mcmc_routine / _match_sequences")
-        return
+        return None
     ans = drv.batch(lines)
     for ln, a, ex in zip(lines, ans, expect):
         what = None
@@ -811,6 +885,307 @@ def check_case(ctx, drv, case):
                 what = f"samples differ: model flag={flag_s} {dec_outs(outs_s)} implementation flag={ex[1]} {ex[2]}"
         if what:
             ctx.disagree({**case, "line": ln}, what)
+    return call
+
+
+# ------------------------------------------------------------------------------------------
+# sessions: several sample(...) calls on ONE sampler object
+
+SHARED = ("u", "w", "udiv", "wdiv", "D", "exact", "burn", "thin", "seed", "ustream")
+
+
+def sub_case(sess, k):
+    """call k of a session as a single-call case (the sampler's parameters + this call's arguments)"""
+    c = {x: sess[x] for x in SHARED if x in sess}
+    c.update({x: v for x, v in sess["calls"][k].items() if x != "same_as"})
+    c["nsamples"] = sum(1 for x in sess["schedule"] if x == k)
+    return c
+
+
+class SubCtx:
+    """ctx seen by `judge` for call k of a session: every report carries the whole session (that is the replay)"""
+
+    def __init__(self, ctx, sess, k):
+        self._ctx, self._sess, self._k = ctx, sess, k
+
+    def _where(self, case):
+        w = {**self._sess, "call_no": self._k}
+        for x in ("sample_no", "run", "line"):
+            if x in case:
+                w[x] = case[x]
+        return w
+
+    def _what(self, what):
+        return f"call {self._k} ({self._sess['calls'][self._k]['mode']}) of a session on one sampler: {what}"
+
+    def violation(self, case, what):
+        self._ctx.violation(self._where(case), self._what(what))
+
+    def disagree(self, case, what):
+        self._ctx.disagree(self._where(case), self._what(what))
+
+    def __getattr__(self, name):
+        return getattr(self._ctx, name)
+
+
+def make_args(call):
+    """the argument objects of one sample(...) call"""
+    import numpy as np
+    if call["mode"] == "hyg":
+        return {"initial_hyg": make_h0(call)}
+    if call["mode"] == "seqs":
+        return {"deg_seq": np.array(call["deg_seq"], dtype=int), "dim_seq": {int(k): int(v) for k, v in call["dim_seq"]},
+                "allow_rescaling": call.get("rescale", False)}
+    return {}
+
+
+def args_intact(call, args):
+    """the objects handed to sample(...) still hold what the caller put into them"""
+    if call["mode"] == "hyg":
+        h0 = args["initial_hyg"]
+        return (sorted(map(repr, h0.get_edges())) == sorted(repr(tuple(e)) for e in call["edges"])
+                and set(h0.get_nodes()) == {x for e in call["edges"] for x in e} | set(call.get("isolated", [])))
+    if call["mode"] == "seqs":
+        return ([int(x) for x in args["deg_seq"]] == [int(x) for x in call["deg_seq"]]
+                and list(args["dim_seq"].items()) == [(int(k), int(v)) for k, v in call["dim_seq"]])
+    return True
+
+
+def run_session(sess, instrumented):
+    """ONE sampler, the calls of `sess`, their generators consumed in the order of `sess['schedule']` (entry k = one
+    next() on the generator of call k; `eager`: all generator objects are created before the first next()).
+    Returns dict(res=[per call: hs, out, exc, flag, h0], traces=[Trace per call] | None, order=[...], exc=...)."""
+    from hypergraphx.generation.hy_mmsbm_sampling import HyMMSBMSampler
+    u, w = case_params(sess)
+    n = len(sess["calls"])
+    res = [{"hs": [], "out": [], "exc": None, "flag": None, "state": []} for _ in range(n)]
+    traces = [Trace() for _ in range(n)] if instrumented else None
+    build = Trace()
+    router = Router(build)
+    out = {"res": res, "traces": traces, "order": [], "exc": None, "build": build}
+    try:
+        with contextlib.ExitStack() as st:
+            st.enter_context(time_limit(sess.get("limit", 20)))
+            if instrumented:
+                st.enter_context(recorded_poisson(router))
+                s = build_sampler(router, u, w, sess.get("D"), sess.get("exact", True), sess["burn"], sess["thin"], sess["seed"],
+                                  sess.get("ustream", 0))
+                st.enter_context(patched_default_rng(router))
+            else:
+                s = HyMMSBMSampler(u=u.copy(), w=w.copy(), max_hye_size=sess.get("D"), exact_dyadic_sampling=sess.get("exact", True),
+                                   burn_in_steps=sess["burn"], intermediate_steps=sess["thin"], seed=sess["seed"])
+            gens = [None] * n
+            objs = {}
+            out["objs"] = objs
+
+            def create(k):
+                call = sess["calls"][k]
+                root = call.get("same_as", k) if sess.get("share") else k      # `share`: a repeated call gets the SAME objects
+                if root not in objs:
+                    objs[root] = make_args(call)
+                if "initial_hyg" in objs[root]:
+                    res[k]["h0"] = objs[root]["initial_hyg"]
+                gens[k] = s.sample(**objs[root])
+            if sess.get("eager"):
+                for k in range(n):
+                    create(k)
+            for k in sess["schedule"]:
+                if res[k]["exc"] is not None:
+                    continue                      # its generator is finished (it raised)
+                if traces is not None:
+                    router.use(traces[k])
+                if gens[k] is None:
+                    create(k)
+                try:
+                    h = next(gens[k])
+                    res[k]["hs"].append(h)
+                    res[k]["out"].append(show_h(h))
+                    out["order"].append((k, res[k]["out"][-1]))
+                except Timeout:
+                    raise
+                except StopIteration:
+                    res[k]["exc"] = "StopIteration: the generator ended"
+                    out["order"].append((k, "exc"))
+                except Exception as e:  # noqa: BLE001 - an exception of the sampler is an observation
+                    res[k]["exc"] = type(e).__name__ + ": " + str(e)[:120]
+                    out["order"].append((k, "exc"))
+                res[k]["state"].append(s.matching_sequences)
+                if len(res[k]["state"]) == 1:
+                    res[k]["flag"] = s.matching_sequences      # the report made by the start of this call
+                if traces is not None:
+                    router.use(build)
+    except Timeout:
+        out["exc"] = "timeout"
+    except Exception as e:  # noqa: BLE001 - building the sampler / creating a generator object raised
+        out["exc"] = type(e).__name__ + ": " + str(e)[:120]
+    return out
+
+
+def check_session(ctx, drv, sess):
+    n = len(sess["calls"])
+    R1 = run_session(sess, True)
+    if R1["exc"] == "timeout" and "limit" not in sess:
+        sess = {**sess, "limit": 50}
+        R1 = run_session(sess, True)
+    R2 = run_session(sess, True) if R1["exc"] != "timeout" else R1
+    R3 = run_session(sess, False) if (R1["exc"] != "timeout" and not sess.get("ustream", 0)) else None
+    key = repr(sorted((k, repr(v)) for k, v in sess.items()))
+    T = R1["traces"]
+    changed = [any(acc for _, acc in t.steps) and t.routine is not None and any(y != t.routine["init"] + t.routine["fixed"] for y in t.routine["yields"])
+               for t in T]
+    delivered = [k for k in range(n) if R1["res"][k]["out"]]
+    ctx.case(key, bool(any(changed) and len(delivered) >= 2), sample=sess)
+    ctx.count("mode_session")
+    ctx.count("session_calls", n)
+    for a, b in zip(sess["calls"], sess["calls"][1:]):
+        ctx.count(f"session_{a['mode']}_then_{b['mode']}")
+    ctx.count("session_interleaved" if sess["schedule"] != sorted(sess["schedule"]) else "session_sequential")
+    ctx.count("steps", sum(len(t.steps) for t in T))
+    ctx.count("accepted", sum(acc for t in T for _, acc in t.steps))
+    if any(R is not None and R["exc"] == "timeout" for R in (R1, R2, R3)):
+        ctx.violation(sess, "the sampler did not deliver the samples of the session within the time limit (non-termination guard)")
+        ctx.extra["timed_out"] = True
+        return
+    if R1["exc"]:
+        ctx.violation(sess, f"building the sampler / creating the generator objects raised {R1['exc']}")
+        return
+
+    # -- seed: two samplers, same parameters and seed, same calls -> same sequence of samples (and reports)
+    def seen(R):
+        return (R["order"], [r["flag"] for r in R["res"]], R["exc"])
+    if seen(R1) != seen(R2):
+        ctx.violation(sess, "two samplers built with the same parameters and seed, used for the same sequence of sample(...) calls, "
+                      f"produced different samples / reports: {str(seen(R1))[:300]} vs {str(seen(R2))[:300]}")
+    if R3 is not None and seen(R1) != seen(R3):
+        ctx.violation({**sess, "run": "uninstrumented"},
+                      "a sampler without any instrumentation and the recorded sampler, built with the same parameters and seed and used "
+                      f"for the same sequence of calls, produced different samples / reports: {str(seen(R3))[:300]} vs {str(seen(R1))[:300]}")
+
+    for R, tag in ((R1, "recorded"), (R3, "uninstrumented")):
+        if R is not None:
+            for k, a in R.get("objs", {}).items():
+                try:
+                    ok = args_intact(sess["calls"][k], a)
+                except Exception:  # noqa: BLE001
+                    ok = False
+                if not ok:
+                    ctx.disagree({**sess, "call_no": k, "run": tag}, f"call {k} of the session: sample(...) changed the objects it was called with "
+                                 "(the model's calls take values; a repeated call with the same objects is conditioned on something else)")
+
+    # -- every call on its own: the property's clauses with the conditioning of THAT call, model replay of its draws
+    calls = []
+    for k in range(n):
+        sub = SubCtx(ctx, sess, k)
+        ck = sub_case(sess, k)
+        r3 = R3["res"][k] if R3 is not None else None
+        ctx.count("session_call_" + ck["mode"])
+        calls.append(judge(sub, drv, ck, R1["res"][k], T[k], r3) if ck["nsamples"] else None)
+    if drv is None:
+        return
+
+    # -- the session on the model's sampler-state record: the calls in the order in which they were started
+    started = []
+    for k in sess["schedule"]:
+        if k not in started:
+            started.append(k)
+    if any(calls[k] is None for k in started):
+        return                                   # reported by judge already
+    ans = drv.batch(["new"] + [calls[k]["line"] for k in started])
+    state_known = True
+    for k, a in zip(started, ans[1:]):
+        c = calls[k]
+        parts = a.split(" ")
+        if not c["complete"]:
+            if c["sets_flag"]:
+                state_known = False               # raised inside _match_sequences: the attribute is not modelled there
+            continue
+        where = {**sess, "call_no": k, "line": c["line"]}
+        if parts[0] == "none" or a == "bad-op" or len(parts) != 3:
+            ctx.disagree(where, f"call {k} of the session: model answers {a[:200]!r}, implementation delivered {str(c['outs'])[:200]}")
+            continue
+        if c["sets_flag"]:
+            state_known = True
+        rep, state, outs_s = parts
+        real_state = R1["res"][k]["state"][0]
+        if rep != c["report"] or dec_outs(outs_s) != c["outs"]:
+            ctx.disagree(where, f"call {k} of the session differs from the model run on the same draws: model report={rep} {dec_outs(outs_s)}, "
+                         f"implementation report={c['report']} {c['outs']}")
+        elif state_known and state != {None: "-", True: "1", False: "0"}.get(real_state, "?"):
+            ctx.disagree(where, f"call {k} of the session: matching_sequences after the start of the call is {real_state!r}, the model's "
+                         f"sampler state has {state!r}")
+
+
+def gen_labels(rng, n):
+    r = rng.random()
+    if r < 0.3:
+        pool = [chr(97 + i) * rng.randint(1, 2) for i in range(20)] + ["E1", "N0", "Z"]
+        return sorted(set(rng.sample(pool, n)))
+    if r < 0.45:
+        return list(range(n))                                   # the labels ARE the ids
+    if r < 0.6:
+        return [x + 1 for x in range(n)] if rng.random() < 0.5 else list(range(n - 1)) + [n + rng.randint(0, 3)]   # nearly the ids
+    return sorted(rng.sample(range(0, 60), n))
+
+
+def gen_session(rng):
+    """ONE sampler, 2-4 sample(...) calls of all conditioning kinds in every order (initial hypergraphs with their own
+    label sets, degree/size sequences matching or not, sampling from the model), generators consumed one after the
+    other or interleaved"""
+    N = rng.randint(4, 9)
+    u, w = gen_uw(rng, N)
+    n_calls = rng.choice([2, 2, 3, 3, 4])
+    calls = []
+    for _ in range(n_calls):
+        kind = rng.choice(["hyg", "hyg", "seqs", "seqs", "model"])
+        if kind == "hyg":
+            n = rng.randint(3, N)
+            labels = gen_labels(rng, n)
+            edges = gen_edges(rng, labels, rng.randint(2, 7))
+            used = {x for e in edges for x in e}
+            iso = [x for x in labels if x not in used and rng.random() < 0.5]
+            calls.append({"mode": "hyg", "edges": [list(e) for e in edges], "isolated": iso, "weighted": rng.random() < 0.15})
+        elif kind == "seqs":
+            edges = gen_edges(rng, list(range(N)), rng.randint(2, 8))
+            deg = [0] * N
+            for e in edges:
+                for x in e:
+                    deg[x] += 1
+            if rng.random() < 0.45:
+                total = sum(deg)                                  # same total, skewed: usually not realisable greedily
+                deg = [0] * N
+                for _ in range(total):
+                    deg[min(N - 1, int(rng.random() ** 2 * N))] += 1
+            dim = list(count_sizes(edges).items())
+            rng.shuffle(dim)
+            calls.append({"mode": "seqs", "deg_seq": deg, "dim_seq": [[k, v] for k, v in dim], "equal_totals": True,
+                          "rescale": rng.random() < 0.1})
+        else:
+            calls.append({"mode": "model"})
+    if rng.random() < 0.35:
+        j = rng.randrange(len(calls))                              # the same call once more, later on the same sampler
+        calls.insert(rng.randint(j + 1, len(calls)), {**{k: v for k, v in calls[j].items() if k != "same_as"}, "same_as": j})
+        for c in calls:                                             # positions moved by the insertion
+            if "same_as" in c:
+                c["same_as"] = j
+    per = [rng.choice([1, 2, 2, 3]) for _ in calls]
+    schedule = [k for k, c in enumerate(per) for _ in range(c)]
+    if rng.random() < 0.5:
+        rng.shuffle(schedule)
+    return {"mode": "session", "u": u, "w": w, "D": rng.randint(3, min(5, N)) if rng.random() < 0.6 else None,
+            "exact": rng.random() < 0.6, "burn": rng.choice([0, 1, 5, 5, 40]), "thin": rng.choice([0, 1, 5, 40]),
+            "seed": 0 if rng.random() < 0.06 else rng.randint(0, 10**6), **gen_magnitude(rng, large=False), **gen_streams(rng),
+            "calls": calls, "schedule": schedule, "eager": rng.random() < 0.3, "share": rng.random() < 0.5}
+
+
+def witness_sessions():
+    """D48 (fixed): a call whose sequences the greedy construction cannot realise (report False), then - same sampler -
+    a call whose sequences it realises exactly: the unrepaired `_match_sequences` never reset `matching_sequences`
+    and the second call reported False as well.  Regression: must pass."""
+    base = {"mode": "session", "u": [[8]] * 4, "w": [[8]], "D": None, "exact": True, "burn": 0, "thin": 1, "seed": 1, "ustream": 0}
+    bad = {"mode": "seqs", "deg_seq": [4, 1, 1, 0], "dim_seq": [[2, 3]], "equal_totals": True, "rescale": False}
+    good = {"mode": "seqs", "deg_seq": [2, 2, 1, 1], "dim_seq": [[3, 2]], "equal_totals": True, "rescale": False}
+    yield {**base, "calls": [bad, good], "schedule": [0, 1], "eager": False, "witness": "D48"}
+    yield {**base, "calls": [good, bad, good], "schedule": [0, 1, 2, 0, 2], "eager": True, "witness": "D48"}
 
 
 # ------------------------------------------------------------------------------------------
@@ -965,6 +1340,10 @@ def gen_magnitude(rng, large=True):
     if r < 0.62:
         # not dyadic: products and sums of the parameters are rounded (the closed form of the Poisson parameters
         # cancels to a tiny negative number instead of 0 for some hyperedges without two nodes of a common community)
+        if not large:
+            # the model draws the sequences itself: u <= 16/7, w <= 2 (with u = 16/3 it draws thousands of hyperedges
+            # on 8 nodes and one sample takes half a minute - a slow harness case, not a hanging sampler)
+            return {"udiv": rng.choice([10, 7, 100]), "wdiv": rng.choice([8, 10])}
         return {"udiv": rng.choice([10, 7, 3, 100]), "wdiv": rng.choice([8, 10, 3])}
     if r < 0.74:
         if not large:
@@ -1203,13 +1582,17 @@ def quiet():
 def run(ctx):
     quiet()
     drv = ctx.driver() if ctx.model_available else None
-    n = ctx.scale(360, 4400)
+    n = ctx.scale(330, 4000)
     for case in witness_cases():
         check_case(ctx, drv, case)
+    for sess in witness_sessions():
+        check_session(ctx, drv, sess)
     gens = [gen_hyg, gen_seqs, gen_model, gen_hard]
     for i in range(n):
         case = gens[i % 4](ctx.rng)
         check_case(ctx, drv, case)
+        if i % 4 == 0:
+            check_session(ctx, drv, gen_session(ctx.rng))
         for _ in range(2):
             direct_reshuffle(ctx, drv, ctx.rng)
             direct_extract(ctx, drv, ctx.rng)
@@ -1222,9 +1605,14 @@ def run(ctx):
 def replay(ctx, case):
     quiet()
     drv = ctx.driver() if ctx.model_available else None
-    case = {k: v for k, v in case.items() if k not in ("line", "sample_no", "exc", "run", "zero_every")}
+    case = {k: v for k, v in case.items() if k not in ("line", "sample_no", "exc", "run", "zero_every", "call_no")}
     mode = case.get("mode")
-    if mode in ("hyg", "seqs", "model"):
+    if mode == "session":
+        for c in case["calls"]:
+            if c["mode"] == "hyg":
+                c["edges"] = [tuple(e) for e in c["edges"]]
+        check_session(ctx, drv, case)
+    elif mode in ("hyg", "seqs", "model"):
         if mode == "hyg":
             case["edges"] = [tuple(e) for e in case["edges"]]
         check_case(ctx, drv, case)
